@@ -308,3 +308,20 @@ PROPS["C08"] = simple(
                "emitted frame and the final state. Schedules are sampled, not enumerated.",
     level_note="Trusted: the Go race detector, porcupine v1.3.0, the restricted keymap model in harness/ui/verif_c08_test.go. Only what main/ui do concurrently is driven; start-up commands are ones that succeed.",
 )
+
+PROPS["C16"] = simple(
+    "ui", "TestVerifC16", "exploration",
+    "(a) ansi.CenterVertically for every combination of prefix / centred / suffix heights 1..8 (the empty string counting as one blank line) and terminal heights 1..16 (quick) / 1..24 "
+    "(thorough) with line-labelled content, plus ReplaceLastLine on each result (enumerated completely); (b) every frame emitted by sequential UI sessions over generated worlds (120 / 250 "
+    "key tokens incl. numbers, commands, media keys, arbitrary bytes) whose terminal size changes before every third token: heights 2..60 with extra weight on 2..5, widths 20..140, in "
+    "loading, normal, selection, command, opening and problem modes. Non-trivial: every geometry and session; geometries are distinct by construction.",
+    variants=ui_variants([5, 2]),
+    tools=["dumphook"],
+    floor=dict(evaluations=5000, distinct=5000, frames_seen=2000, frames_with_cursor=1000),
+    timeout=dict(quick=600, thorough=2400),
+    technique="runtime monitor: exact line count / centring / adjacent-row oracle over an exhaustively enumerated geometry space, and a line-count + centring monitor on every frame of UI exploration",
+    level_text="The geometric space of CenterVertically is enumerated completely within the stated bounds and each result is checked for exact height, centring within one row, the rows above being the "
+               "last lines of the prefix and the rows below the first lines of the suffix; every frame the UI hands to its output callback during sequential exploration must have exactly as "
+               "many lines as the height in force when it was emitted, with the highlighted block centred when it is shorter than the screen.",
+    level_note="Trusted: kit/term line splitting; the height in force is read inside the output callback, i.e. inside the call that emits the frame (sessions are sequential, so it is unambiguous).",
+)
